@@ -127,7 +127,8 @@ def rand_malformed(rnd):
     if k == 1:
         return "INVALID_OCT_INT", "0" + d("01234567", 0, 5) + rnd.choice("89") + d("0123456789", 0, 5), rest
     if k == 2:
-        return "INVALID_SUFFIX", rnd.choice(["1", "42", "017", "0b11"]) + d("0123456789", 0, 5) + rnd.choice(["q", "uu", "lul", "x", "_", "gh", "llu8", "i65", "zz"]), rest
+        return "INVALID_SUFFIX", rnd.choice(["1", "42", "017", "0b11"]) + d("0123456789", 0, 5) + rnd.choice(["q", "uu", "lul", "x", "_", "gh", "llu8", "i65", "zz",
+                                                                                                      "f", "F", "lf", "df", "DD"]), rest
     if k == 3:
         return "MAXIMAL_MUNCH", rnd.choice(["0x", "0X"]) + d("0123456789abcdf", 0, 5) + rnd.choice("eE") + rnd.choice("+-") + rnd.choice(["1", "x", "12"]), rest
     if k == 4:
@@ -139,14 +140,22 @@ def rand_malformed(rnd):
     if k == 7:
         return "MULTIPLE_DOTS", d("0123456789", 0, 4) + "." + d("0123456789", 1, 4) + "." + d("0123456789", 0, 4), rest
     if k == 8:
-        return "BAD_FLOAT_SUFFIX", rnd.choice(["1.5", ".5", "5.", "1e5"]) + rnd.choice(["q", "lf", "x", "_", "fq", "ff", "dq"]), rest
+        return "BAD_FLOAT_SUFFIX", rnd.choice(["1.5", ".5", "5.", "1e5"]) + rnd.choice(["q", "lf", "x", "_", "fq", "ff", "dq",
+                                                                                              "u", "U", "ul", "ll", "z", "wb", "i64", "lu"]), rest
     if k == 9:
         return "EMPTY_CHAR", rnd.choice(["", "L", "u", "U", "u8"]) + "''", rest
     if k == 10:
         return "CHAR_AS_STRING", rnd.choice(["", "L", "u8"]) + "'" + d("abc xyz", 2, 8) + "'", rest
     if k == 11:
         return "UNKNOWN_ESCAPE", "'\\" + rnd.choice("qcdghijklmopswyzAZ%( ") + "'", rest
-    which = rnd.randint(0, 3)
+    which = rnd.randint(0, 6)
+    splices = "".join(rnd.choice(["\\\n", "??/\n"]) for _ in range(rnd.randint(1, 3)))
+    if which == 4:      # a literal still open at end of file whose last characters are line splices
+        return "UNEXPECTED_EOF_STR", rnd.choice(["", "L", "u8"]) + '"' + d("abc ", 0, 4) + splices, ""
+    if which == 5:
+        return "UNEXPECTED_EOF_CHR", rnd.choice(["", "L"]) + "'" + d("abc", 0, 2) + splices, ""
+    if which == 6:
+        return "UNEXPECTED_EOF_MC", "/*" + d("abc ", 0, 4) + splices, ""
     if which == 0:
         return "UNEXPECTED_EOL_CHR", rnd.choice(["", "L"]) + "'" + d("abc", 0, 3), "\n" + d("ab;", 0, 3)
     if which == 1:
@@ -184,6 +193,17 @@ def run(run, tier, seed, replay=None):
             ok, r = impl_diag(d["name"], d["w"], d["rest"])
             if not ok:
                 found |= run.violation("malformed-constant-not-reported", d)
+        elif replay["kind"] == "constant-verdict-depends-on-context":
+            r = lexcorr.impl_lex(d["text"])
+            o, w = d["offset"], d["w"]
+            here = [dg for dg in r.get("diags", []) if any(h[0] == 1 and o + 1 <= h[1] <= o + len(w) + 1 for h in dg[3])]
+            if d["expected"].startswith("one "):
+                ty = d["expected"].split()[1]
+                bad = r["kind"] != "ok" or {(t[4], t[5]): t[0] for t in r["tokens"]}.get((o, o + len(w))) != ty or bool(here)
+            else:
+                bad = r["kind"] != "ok" or not any(dg[0] == d["expected"] for dg in here)
+            if bad:
+                found |= run.violation("constant-verdict-depends-on-context", d)
         else:
             found |= lexcorr.run_lexical_check(run, tier, seed, "c11", (), replay)
         run.count("replay", 1, 1)
@@ -245,6 +265,49 @@ def run(run, tier, seed, replay=None):
                 found |= run.violation("malformed-constant-not-reported", {"name": name, "w": w, "rest": rest, "impl": repr(r)[:600]},
                                        finding_id=fid)
         run.count("random members of the malformed families", m, len(seen))
+        # 4. several constants in ONE text, valid and malformed mixed in both orders: the verdict on a constant does not
+        # depend on what was lexed before it (numeric kinds only: no quote can swallow its neighbour)
+        nm = 1500 if tier == "quick" else 20000
+        nmixed = 0
+        for _ in range(nm):
+            items = []
+            for _k in range(rnd.randint(2, 4)):
+                if rnd.random() < 0.5:
+                    k, w = rand_valid(rnd, isuf, fsuf)
+                    if k > 1:
+                        continue
+                    items.append(("valid", KINDS[k], w))
+                else:
+                    name, w, _r = rand_malformed(rnd)
+                    if "'" in w or '"' in w or "/*" in w or "\n" in w:
+                        continue
+                    items.append(("malformed", name, w))
+            if len(items) < 2:
+                continue
+            nmixed += 1
+            for order in (items, items[::-1]):
+                text, offs = "", []
+                for it in order:
+                    offs.append(len(text))
+                    text += it[2] + " "
+                r = lexcorr.impl_lex(text)
+                if r["kind"] != "ok":
+                    found |= run.violation("lexer-not-total", {"src": text, "impl": repr(r)[:400]})
+                    continue
+                spans = {(t[4], t[5]): t[0] for t in r["tokens"]}
+                for (what, x, w), o in zip(order, offs):
+                    here = [dg for dg in r["diags"] if any(h[0] == 1 and o + 1 <= h[1] <= o + len(w) + 1 for h in dg[3])]
+                    if what == "valid":
+                        alone_ok, _ = impl_one_ok(x, w, " ")
+                        if alone_ok and (spans.get((o, o + len(w))) != x or here):
+                            found |= run.violation("constant-verdict-depends-on-context", {"text": text, "w": w, "offset": o, "expected": "one " + x + " token, no diagnostic",
+                                                                                          "diags_here": repr(here)[:300]})
+                    else:
+                        alone_ok, _ = impl_diag(x, w, " ")
+                        if alone_ok and not any(dg[0] == x for dg in here):
+                            found |= run.violation("constant-verdict-depends-on-context", {"text": text, "w": w, "offset": o, "expected": x,
+                                                                                          "diags_here": repr(here)[:300]})
+        run.count("texts of 2..4 numeric constants (valid and malformed mixed), each in both orders: every verdict as for the constant alone", nm, nmixed)
         run.sample({"valid": [c[1] + c[2] for c in cases[::max(1, len(cases) // 5)]][:5]})
         run.sample({"malformed": [(c[1], c[2]) for c in mal[::max(1, len(mal) // 4)]][:4]})
     drv.close()
